@@ -72,14 +72,17 @@ def sig(fl):
 CONF = {
     "id": "C18", "family": "Rebalance",
     "mc": [
-        # the loop transcription (any order of sources / pods, failing evictions) satisfies the predicates:
+        # the loop transcription (any order of sources / pods) satisfies the predicates; every action is taken (coverage):
         # absolute 20/80 + prod 10/15, 3 nodes of two capacities, 4 pods, anomaly none / 2, 4 rounds
-        {"module": "MC_Rebalance", "cfg": {"quick": "MC_abs_quick.cfg", "thorough": "MC_abs_thorough.cfg"}, "timeout": 1500,
+        {"module": "MC_Rebalance", "cfg": {"quick": "MC_abs_quick.cfg", "thorough": "MC_abs_quick.cfg"}, "timeout": 1500,
          "coverage": True},
         # deviation thresholds 10 (prod 5) around the pool average
-        {"module": "MC_Rebalance", "cfg": {"quick": "MC_dev_quick.cfg", "thorough": "MC_dev_thorough.cfg"}, "timeout": 1500,
+        {"module": "MC_Rebalance", "cfg": {"quick": "MC_dev_quick.cfg", "thorough": "MC_dev_quick.cfg"}, "timeout": 1500,
          "coverage": True},
-        # NodeFit (any subset removable), stale metrics, NumberOfNodes = 1, second pod set
+        # thorough: memory-hot system usage, failing evictions, anomaly 1, more filter outcomes
+        {"module": "MC_Rebalance", "cfg": {"quick": None, "thorough": "MC_abs_thorough.cfg"}, "timeout": 2400},
+        {"module": "MC_Rebalance", "cfg": {"quick": None, "thorough": "MC_dev_thorough.cfg"}, "timeout": 2400},
+        # NodeFit (any subset removable), stale metrics, unschedulable node, NumberOfNodes = 1, second pod set
         {"module": "MC_Rebalance", "cfg": {"quick": None, "thorough": "MC_fit_thorough.cfg"}, "timeout": 1500},
         # 5 rounds, anomaly 2 / 3, ConsecutiveNormalities 2
         {"module": "MC_Rebalance", "cfg": {"quick": None, "thorough": "MC_rounds5_thorough.cfg"}, "timeout": 1500},
